@@ -110,4 +110,12 @@ CHECKS = {
         "the oracle's documented effective centres / widths, and each dispersed matrix slice against the index-independent model.",
    note="Trusted base: mpmath (erfc, exp) at 40 digits; scipy erfcx only as pre-filter (sampled against mpmath). Backsweep excluded.",
    technique="runtime monitoring: argument/return recorders on the numba kernels + pointwise multiprecision oracle"),
+ "C07": dict(category="exploration",
+   text="Matrices returned by the real damped-oscillation, pfid, coherent-artifact and spectral megacomplexes over generated models (1-3 oscillations, 0-2000 cm^-1, "
+        "damping incl. large damping x width, (multi-)Gaussian IRFs with scales, per-index shifts and dispersion, artifact orders 1-3 with own/IRF width, all "
+        "shape parameters incl. skewness at and across the switch, inverted/scaled axes) are judged by label against closed forms and a 40-digit convolution "
+        "reference, with one real proportionality constant per model, the pre-pulse bound, the effective IRF position of the decay model per index, and the "
+        "documented structural points of the shapes.",
+   note="Trusted base: mpmath / scipy wofz-erfcx forms (vf/ref/irf.py), the C05 oracle of effective IRF parameters. F16 (textbook exp x (1+erf) formula) is attributed only when the entry reproduces that formula's own float64 value.",
+   technique="runtime monitoring: oracle on real megacomplex evaluations (closed forms + multiprecision convolution), call recorders"),
 }
